@@ -79,7 +79,11 @@ def cms_case(draw):
     ops = []
     total = 0
     for _ in range(n):
-        what = draw(st.sampled_from(['add', 'add', 'add', 'query', 'batch']))
+        what = draw(st.sampled_from(['add', 'add', 'add', 'query', 'batch', 'add', 'add', 'add', 'query', 'batch', 'copy']))
+        if what == 'copy':
+            # the sketch object is snapshotted (deepcopy) or shipped through pickle and the history continues on the copy
+            ops.append(['copy', draw(st.sampled_from(['deepcopy', 'pickle']))])
+            continue
         if what == 'query':
             ops.append(['query', draw(st.one_of(item, item, base))])
             continue
@@ -91,7 +95,8 @@ def cms_case(draw):
             items = draw(st.lists(item, min_size=0, max_size=5))
             if items:
                 w = min(w, (LIMIT - total) // len(items))
-            ops.append(['batch', items, w])
+            # the batch is any iterable of items: a list, a tuple, or a one-shot iterator / generator (a streaming reader)
+            ops.append(['batch', items, w, draw(st.sampled_from(['list', 'list', 'tuple', 'iter', 'gen']))])
             total += w * len(items)
     return {'depth': depth, 'width': width, 'seed': seed, 'ops': ops}
 
@@ -110,6 +115,8 @@ def oracle_cms(case, rec):
     # domain validation (replay files may be hand-written)
     tot = 0
     for op in ops:
+        if op[0] == 'copy':
+            continue
         items = [op[1]] if op[0] in ('add', 'query') else list(op[1])
         if not all(_valid_item(x) for x in items):
             raise Inconclusive()
@@ -148,6 +155,15 @@ def oracle_cms(case, rec):
     check_rows('empty sketch')
     for k, op in enumerate(ops):
         where = f'after op #{k} {op!r}'
+        if op[0] == 'copy':
+            import copy
+            import pickle
+            sk = copy.deepcopy(sk) if op[1] == 'deepcopy' else pickle.loads(pickle.dumps(sk))
+            rec.cls('sketch-copied:' + op[1])
+            check_rows(where)
+            for x in seen:
+                check_query(x, where)
+            continue
         if op[0] == 'query':
             before = _fingerprint(sk.get_matrix())
             check_query(op[1], where)
@@ -159,7 +175,11 @@ def oracle_cms(case, rec):
             sk.add(op[1], op[2])
         else:
             items = list(op[1])
-            sk.batch_add(items, op[2])
+            how = op[3] if len(op) > 3 else 'list'
+            arg = items if how == 'list' else tuple(items) if how == 'tuple' else iter(items) if how == 'iter' else (x for x in items)
+            sk.batch_add(arg, op[2])
+            if how in ('iter', 'gen'):
+                rec.cls('batch-from-one-shot-iterator')
         w = op[2]
         for x in items:
             if _ukey(x) not in true:
